@@ -139,6 +139,8 @@ class KernelHooks(Hooks):
             it.write(it.deref(it.ptr_add(a, k), node), f(k), node)
 
     def on_new(self, it, node, count, elem_type):
+        if count is None and not node.get('array'):
+            count = 1  # single-object new
         if not isinstance(count, int):
             raise Unsupported('symbolic allocation size at %s' % it.loc(node))
         r = Region('heap#%d' % len(self.heap), count, None, 'heap', {'site': it.loc(node)})
